@@ -35,6 +35,7 @@ MODULES = [
     'contracts.c27_reload',
     'contracts.c45_abs',
     'contracts.c26_db',
+    'contracts.c44_private',
 ]
 
 EXTRA_CHECKS = {'C26': ['contracts.c26_census:check'],
